@@ -33,9 +33,9 @@ SPEC = {
     "lean": ["SnowModel.Props.C05", "SnowModel.Props.C05Bridge"],
     "pins": ["Runtime", "ObjectRows", "Persist"],
     "technique": "Lean 4 theorems over an executable model of save_continuation_yaml / load_continuation_yaml (Globals/IdManager/ObjectRow __getstate__/__setstate__, yaml.dump key sorting and representer failures, hydrate, the history restore) with the YAML scalar layer as an explicit contract hypothesis + key tables, access kinds, dump call, representer registrations and __setstate__ body pinned from the AST + differential correspondence and a direct oracle on real runs, files and Globals objects",
-    "level_text": "Machine-checked proof, for every state (any tables, nicknames, rows, fields, values, dependencies) and every chain length, that under the YAML scalar contract loading a written continuation file gives back the id counters (start_ids re-derived), every persistent row with each remaining field's typed value, the nickname bindings, today and the dependencies (persist_roundtrip), that load-then-save reproduces the file and every longer chain is stable (save_load_save, chain_stable), that the save succeeds exactly on states without unrepresentable values (save_ok_iff; save_total refuted for Decimal and slot values: D04), that row-valued fields are the only loss (full_snapshot_refuted / persist_roundtrip_partial: D03), and that the history restore misses rows whose id collides with a nicknamed row of another table (resave_complete_refuted / _partial: D41); every key written is read back by key access (pinned).",
-    "level_note": "Trusted: Lean kernel, py2lean, harness. PyYAML's scalar dump/load is an assumption (Lawful Y), exercised on every scalar of every case; floats, dates, datetimes and decimals are opaque tokens in the model. Table / nickname / field names are assumed to round-trip as YAML strings (exercised with hostile names). What a continuation does not carry by design (top-level variables, transients) is C04's subject.",
-    "assumptions": ["PyYAML: safe_load(dump(v, Dumper=SnowfakeryDumper)) == v with the same type for str/int/float/bool/None/date/datetime (checked on every generated scalar)"],
+    "level_text": "Machine-checked proof, for every state (any tables, nicknames, rows, fields, values, dependencies) and every chain length, that under the YAML scalar contract loading a written continuation file gives back the id counters (start_ids re-derived), every persistent row with each remaining field's typed value, the nickname bindings, today and the dependencies (persist_roundtrip), that load-then-save reproduces the file and every longer chain is stable (save_load_save, chain_stable), that the save succeeds exactly on states without unrepresentable values (save_ok_iff; save_total refuted for slot values: D04, proved on the scalar universe incl. Decimal: save_total_scalars, decimal_roundtrip), that row-valued fields are the only loss (full_snapshot_refuted / persist_roundtrip_partial: D03), that the history restore puts back every persistent row of a history table (resave_complete; D48 repaired) while the history itself is not in the file (history_complete_refuted: D49); every key written is read back by key access (pinned).",
+    "level_note": "Trusted: Lean kernel, py2lean, harness. PyYAML's scalar dump/load is an assumption (Lawful Y), exercised on every scalar of every case; floats, dates, datetimes and decimals (written under the tag !snowfakery_decimal) are opaque tokens in the model. Table / nickname / field names are assumed to round-trip as YAML strings (exercised with hostile names). What a continuation does not carry by design (top-level variables, transients) is C04's subject.",
+    "assumptions": ["PyYAML: safe_load(dump(v, Dumper=SnowfakeryDumper)) == v with the same type for str/int/float/bool/None/date/datetime/Decimal (checked on every generated scalar)"],
     "budget": {"quick": 600, "thorough": 3000},
 }
 
@@ -62,7 +62,7 @@ DATETIMES = ["2024-01-01T10:00:00", "2024-01-01T10:00:00+05:00", "2024-01-01T01:
              "2024-01-01T10:00:00.123456-03:30", "1970-01-01T00:00:00", "2038-01-19T03:14:08.000001+00:00"]
 LIT_DATETIMES = ["2024-01-01T10:00:00", "2024-01-01 10:00:00+05:00", "2024-01-01T01:02:03Z",
                  "2024-01-01T10:00:00.123456-03:30"]
-DECIMALS = ["1.50", "0", "-3.14", "1E+3"]
+DECIMALS = ["1.50", "1.10", "0", "-3.14", "1E+3", "0E-10", "-0.00", "123456789012345678901234567890.123456789", "NaN", "-Infinity"]
 SAFE_NICKS = ["qq", "rr", "ss", "tt"]
 HOSTILE_NAMES = ["yes", "null", "12", "~", "héllo", "007", "true", "1e3", "No"]
 TABLES = ["Q", "R", "S"]
@@ -99,7 +99,7 @@ def gen_spec(rng, version, back_targets, fwd_targets):
         return {"via": "ref", "to": rng.choice(back_targets)}
     if r < 0.055 and fwd_targets:
         return {"via": "fwd", "to": rng.choice(fwd_targets)}
-    if 0.06 <= r < 0.08:
+    if 0.06 <= r < 0.14:
         if rng.random() < 0.3:
             return {"via": "fakedec"}
         return {"via": "plugin", "t": "decimal", "v": rng.choice(DECIMALS)}
@@ -158,9 +158,9 @@ def gen_case(rng):
         back = back + [nick if (nick in SAFE_NICKS) else table]
     hist = None
     if rng.random() < 0.45:
-        # mostly a table whose rows the history restore keeps (D41 / D42 otherwise dominate)
+        # mostly a table with a single just_once row (D49 otherwise dominates)
         tabs = [r["table"] for r in rows]
-        good = [r["table"] for r in rows if r["nick"] and tabs.count(r["table"]) == 1]
+        good = [r["table"] for r in rows if tabs.count(r["table"]) == 1]
         hist = rng.choice(good) if good and rng.random() < 0.75 else rng.choice(tabs)
     jr = None
     if rng.random() < 0.5:
@@ -670,9 +670,70 @@ FIXED = [
         {"table": "S", "nick": "yes", "fields": [["f%d" % i, {"via": "plugin", "t": "datetime", "v": x}] for i, x in enumerate(DATETIMES)]
             + [["g%d" % i, {"via": "plugin", "t": "date", "v": x}] for i, x in enumerate(DATES)]
             + [["b1", {"via": "lit", "t": "bool", "v": True}], ["b2", {"via": "formula", "t": "bool", "v": False}],
-               ["n1", {"via": "lit", "t": "null", "v": None}], ["n2", {"via": "plugin", "t": "null", "v": None}]]}],
-     "hist": "Q", "jr": "R", "n": 3, "zero": True},
+               ["n1", {"via": "lit", "t": "null", "v": None}], ["n2", {"via": "plugin", "t": "null", "v": None}]]
+            + [["d%d" % i, {"via": "plugin", "t": "decimal", "v": x}] for i, x in enumerate(DECIMALS)]}],
+     # R has no nickname and its row has the id (1) of the nicknamed rows of Q and S: D48 regression
+     "hist": "R", "jr": "R", "n": 3, "zero": True},
 ]
+
+# a continuation file written before cf894eb (no `!snowfakery_decimal` tag anywhere), with the legacy
+# `nicknamed_objects` key and dependencies in the old list form: it must still load
+LEGACY_FILE = """id_manager:
+  last_used_ids:
+    A: 3
+    Q: 1
+intertable_dependencies:
+- field_name: q
+  table_name_from: A
+  table_name_to: Q
+- [A, Q, q2]
+nicknamed_objects: {}
+nicknames_and_tables:
+  A: A
+  Q: Q
+  qq: Q
+persistent_nicknames:
+  qq:
+    _tablename: Q
+    _values:
+      id: 1
+      price: '1.10'
+      s: '12'
+persistent_objects_by_table:
+  Q:
+    _tablename: Q
+    _values:
+      id: 1
+      price: '1.10'
+      s: '12'
+today: 2024-03-01
+"""
+LEGACY_EXPECTED = {
+    "lastUsed": [["A", 3], ["Q", 1]], "startIds": [["A", 4], ["Q", 2]],
+    "pNick": [["qq", {"table": "Q", "values": [["id", {"t": "int", "v": "1"}], ["price", {"t": "str", "v": "1.10"}], ["s", {"t": "str", "v": "12"}]]}]],
+    "pTable": [["Q", {"table": "Q", "values": [["id", {"t": "int", "v": "1"}], ["price", {"t": "str", "v": "1.10"}], ["s", {"t": "str", "v": "12"}]]}]],
+    "nickTable": [["A", "A"], ["Q", "Q"], ["qq", "Q"]], "today": {"t": "date", "v": "2024-03-01"},
+    "deps": [["A", "Q", "q"], ["A", "Q", "q2"]],
+}
+
+
+def legacy_file(rep):
+    """old files (no Decimal tag) still load, and re-save to a file that loads to the same state"""
+    from snowfakery.data_generator import load_continuation_yaml, save_continuation_yaml
+
+    cs = {"legacy_file": LEGACY_FILE}
+    try:
+        g = load_continuation_yaml(io.StringIO(LEGACY_FILE))
+        snap = snap_globals(g)
+        out = io.StringIO()
+        save_continuation_yaml(g, out)
+        snap2 = snap_globals(load_continuation_yaml(io.StringIO(out.getvalue())))
+    except Exception as e:  # noqa
+        rep.violation("C05:legacy-file-load", f"a continuation file in the old format does not load / re-save: {type(e).__name__}: {str(e)[:120]}", cs, LEGACY_EXPECTED, str(e)[:200])
+        return
+    if snap != LEGACY_EXPECTED or snap2 != LEGACY_EXPECTED:
+        rep.violation("C05:legacy-file-load", "a continuation file in the old format loads to a different state", cs, LEGACY_EXPECTED, snap if snap != LEGACY_EXPECTED else snap2)
+    rep.count("legacy-file:checked")
 
 
 def run(ctx, rep, findings):
@@ -683,6 +744,7 @@ def run(ctx, rep, findings):
                 "template reading every reachable field by formula, a reference and a random_reference to a just_once "
                 "table. Non-trivial: the run completed and its persistent rows hold >= 2 kinds of values.")
     pending = []
+    legacy_file(rep)
     for c in [f["input"] for f in findings if f.get("input")] + ctx.corpus() + FIXED:
         run_case(rep, c, pending)
     flush(rep, pending)
